@@ -110,13 +110,13 @@ let handle (p : string) : string =
     let stream = bytes_of_hex stream in
     let parts = String.split_on_char '/' parts in
     let (r, refm) = match proto with
-      | "usbpro" -> run_proto proto u_recv u_init (fun s -> string_of_int (ust_i s.u_st)) ref_usb stream parts
+      | "usbpro" | "usbprotty" -> run_proto proto u_recv u_init (fun s -> string_of_int (ust_i s.u_st)) ref_usb stream parts
       | "robew" ->
         (* the real RobeWidget: only frames whose label maps to HandleDmxFrame are observable *)
         run_gen ~post:(robe_dispatch []) r_recv r_init (fun s -> string_of_int (rst_i s.r_st))
           (fun out _ -> join "," (List.map (msg_s proto) (robe_dispatch [] out)))
           (join "," (List.map (msg_s proto) (robe_dispatch [] (ref_robe stream)))) stream parts
-      | "robe" -> run_proto proto r_recv r_init (fun s -> string_of_int (rst_i s.r_st)) ref_robe stream parts
+      | "robe" | "robetty" -> run_proto proto r_recv r_init (fun s -> string_of_int (rst_i s.r_st)) ref_robe stream parts
       | p when String.length p >= 3 && String.sub p 0 3 = "opc" ->
         (* "opc" = every channel has a callback, "opc@-" = none, "opc@0,5,255" = those *)
         let reg : n -> bool =
@@ -146,4 +146,40 @@ let handle (p : string) : string =
              else if String.length proto > 7 && String.sub proto 0 8 = "acnroot@" then "acn-root-inflator" else proto in
     r ^ ";class=" ^ classify pc stream refm (List.length parts)
   | _ -> "bad-op"
-let () = vh_run handle
+(* several instances / several connections: each one is its own run of the single-instance model *)
+let kv_get (r : string) (k : string) : string =
+  let parts = String.split_on_char ';' r in
+  let pre = k ^ "=" in
+  let lp = String.length pre in
+  match List.find_opt (fun p -> String.length p >= lp && String.sub p 0 lp = pre) parts with
+  | Some p -> String.sub p lp (String.length p - lp)
+  | None -> "?"
+
+let handle_multi (p : string) : string =
+  match split p with
+  | ["inter"; proto; hexes; sched] ->
+    let streams = String.split_on_char ',' hexes in
+    let steps = List.map (fun s -> match String.split_on_char ':' s with
+        | [i; n] -> (ios i, n) | _ -> (-1, "0")) (String.split_on_char ',' sched) in
+    let b = Buffer.create 256 in
+    List.iteri (fun i hx ->
+      let mine = List.filter_map (fun (j, n) -> if j = i then Some n else None) steps in
+      let part = if mine = [] then "0" else String.concat "," mine in
+      let r = handle (Printf.sprintf "%s 0 %s %s" proto hx part) in
+      Buffer.add_string b (Printf.sprintf "m%d=%s;s%d=%s;" i (kv_get r "m0") i
+                             (if mine = [] then "-" else kv_get r "s0"))) streams;
+    Buffer.add_string b (Printf.sprintf "agree=1;class=inter:%s:n%d" proto (List.length streams));
+    Buffer.contents b
+  | ["conns"; token; conns] ->
+    let cs = String.split_on_char ';' conns in
+    let b = Buffer.create 256 in
+    List.iteri (fun c hp ->
+      match String.split_on_char '|' hp with
+      | [hx; part] ->
+        let r = handle (Printf.sprintf "%s 0 %s %s" token hx part) in
+        Buffer.add_string b (Printf.sprintf "m%d=%s;s%d=%s;" c (kv_get r "m0") c (kv_get r "s0"))
+      | _ -> Buffer.add_string b "bad-conn;") cs;
+    Buffer.add_string b (Printf.sprintf "agree=1;class=conns:opc:n%d" (List.length cs));
+    Buffer.contents b
+  | _ -> handle p
+let () = vh_run handle_multi
